@@ -856,6 +856,8 @@ def c06_check(p, q, rec, second_ops, env, rng):
             continue
         n_fwd += 1
         fwd_ok[id(node)] = f
+        if f._impl._root is not q._loopir_proc:
+            problems.append({"cursor": SE.describe_arg(c), "problem": "the forwarded statement cursor is not a cursor into the derived procedure (its root is another tree)"})
         # never dangling: the forwarded path must resolve inside q's tree
         if isinstance(node, leaf):
             if type(fnode) is not type(node) and not (isinstance(node, (LoopIR.Assign, LoopIR.Reduce)) and isinstance(fnode, (LoopIR.Assign, LoopIR.Reduce))):
@@ -871,6 +873,16 @@ def c06_check(p, q, rec, second_ops, env, rng):
             fg = q.forward(g)
             _ = fg._impl._anchor._node
             n_fwd += 1
+            if fg._impl._root is not q._loopir_proc or fg._impl._anchor._root is not q._loopir_proc:
+                problems.append({"cursor": SE.describe_arg(g), "problem": "the forwarded gap cursor is not a cursor into the derived procedure (its root or its anchor's root is another tree)"})
+            # the gap keeps its side of its anchor statement when that statement is carried over unchanged
+            a_old = g._impl._anchor
+            try:
+                fa = q.forward(PC.lift_cursor(a_old, p))
+                if fa._impl._node is a_old._node and (fg._impl._anchor._node is not a_old._node or fg._impl._type != g._impl._type):
+                    problems.append({"cursor": SE.describe_arg(g), "problem": f"gap {g._impl._type.name} `{str(a_old._node).strip()[:50]}` is forwarded to {fg._impl._type.name} `{str(fg._impl._anchor._node).strip()[:50]}` although the anchor statement was carried over unchanged"})
+            except Exception:
+                pass
         except InvalidCursorError:
             n_inv += 1
         except NotImplementedError:
@@ -885,6 +897,8 @@ def c06_check(p, q, rec, second_ops, env, rng):
             fb = q.forward(b)
             nodes = [c._impl._node for c in fb]
             n_fwd += 1
+            if fb._impl._root is not q._loopir_proc or fb._impl._anchor._root is not q._loopir_proc:
+                problems.append({"cursor": SE.describe_arg(b), "problem": "the forwarded block cursor is not a cursor into the derived procedure (its root or its anchor's root is another tree)"})
         except InvalidCursorError:
             n_inv += 1
             continue
